@@ -356,14 +356,12 @@ impl From<SocketAddr> for SocketAddress {
 
 impl From<SocketAddress> for SocketAddr {
     fn from(socket_address: SocketAddress) -> Self {
-        // PRE: a wire-sourced proto port may exceed u16::MAX (16-bit on the
-        // wire is carried as a 32-bit field). This is peer/config input, so we
-        // narrow rather than panic; the debug_assert only guards our *own*
-        // encoders, which never emit an out-of-range port.
-        debug_assert!(
-            socket_address.port <= u16::MAX as u32,
-            "self-encoded proto port must fit in a u16"
-        );
+        // A wire-sourced proto port may exceed u16::MAX (16-bit on the wire is
+        // carried as a 32-bit field). This conversion runs on peer/config input
+        // (command channel, saved state files), so we narrow rather than panic
+        // -- in debug builds too: an assertion here aborted the process on a
+        // state file holding `"port":80800`. Our own encoders never emit an
+        // out-of-range port (asserted in `From<SocketAddr>` above).
         let had_inner = socket_address.ip.inner.is_some();
         let port = socket_address.port as u16;
 
